@@ -19,7 +19,7 @@ WORKERS = {"quick": 4, "thorough": 16}
 REQUIRED = {"alias-used-in>=2-blocks": 20, "alias-with-defined-param-used-in>=2-blocks": 10, "alias-used>=2x-in-one-block": 10, "definition-after-use": 20,
             "redefinition:Define": 20, "redefinition:ModelAlias": 10, "negated-use": 20, "negated-use-of-negative-value": 5, "plus-prefixed-word-stays": 10,
             "undefined-word-stays": 20, "use-in-copied-table": 10, "use-in-conjugated-table": 10, "define-used>=4x": 10, "expanded-text-parsed": 50,
-            "alias-with-photos": 5, "define-unused": 5, "second-parse-same-instance": 20, "alias-name-extends-a-published-model-name": 20}
+            "alias-with-photos": 5, "define-unused": 5, "second-parse-same-instance": 20, "user-model-registered": 20, "alias-name-extends-a-published-model-name": 20}
 PUBLISHED_PREFIXES = ("ISGW2", "HQET2", "SLPOLE", "PHSP", "SLBKPOLE", "VSS", "ISGW", "HQET")
 ASSUMPTIONS = ["Define'd names do not start with '-' or '+' (they may end in a sign); a ModelAlias stands for a published model (not for another alias)"]
 
@@ -210,7 +210,13 @@ def check(ctx, stmts, workload="gen"):
     nontrivial = classify(ctx, stmts, exp)
     wit = {"kind": "generated", "text": text}
     ctx.case(text, nontrivial, workload)
-    ok, res = ctx.guard("parse", wit, snapshot.make_parser, text)
+    um = ()
+    if ctx.rng.random() < 0.25:
+        # a user-registered model next to the published ones (not used by any line): definitions and aliases mean what they meant
+        um = ("MY_USER_MODEL", "SLBKPOLE2")
+        ctx.hit("user-model-registered")
+        wit["user_models"] = list(um)
+    ok, res = ctx.guard("parse", wit, snapshot.make_parser, text, None, um)
     if not ok:
         return
     p, _ = res
